@@ -48,6 +48,9 @@ def menu(lab, kind, small=False):
          ["m", [False] * n], ["nps", lab[-1]], ["ml", [i == n - 1 for i in range(n)]], ["nd", []]]
     if n >= 3:
         m.append(["l", lab[1:] + lab[:1]])      # rotation: a permutation that is not its own inverse
+    if kind == "O" and not small:
+        # labels of ANOTHER type asked from a str axis, in a list: absent like any other absent label (the scalar form raises IndexError)
+        m = m + [["l", [3]], ["l", [lab[0], 2.5]]]
     if kind in "if":   # fractional query hugging a label: must not be truncated / rounded onto it
         eps = 0.5 if kind == "i" else 0.125
         m = m + [["s", lab[0] + eps], ["l", [lab[-1], lab[0] - eps]], ["l", [lab[0] + eps]], ["nd", [lab[-1] + eps, lab[0]]], ["s", lab[-1] - eps]]
